@@ -57,6 +57,9 @@ def bind_repo():
     from py_ballisticcalc.trajectory_calc import TrajectoryCalc
     from mc import hist as _hist
     if _hist._PRISTINE is None:
+        # locks owned by the library become visible to the schedule explorer (a real lock held by a parked thread would hang it)
+        from mc import sched as _sched
+        _sched.install_coop_locks(_hist.library_modules())
         _hist.capture_pristine()
     return {'repo': REPO, 'backend': TrajectoryCalc.__module__, 'package_file': f,
             'python': sys.version.split()[0]}
@@ -328,7 +331,7 @@ class Ctx:
             'parts': self.parts,
             'bound_to': bind_info,
             'known_findings_matched': {k: c for k, (f, c) in known_by_key.items()},
-            'technique': self.mod.TECHNIQUE,
+            'technique': technique_of(self.mod),
         }
         coverage.update(self.extra)
         if self.states == 0:
@@ -357,6 +360,14 @@ class Ctx:
             print(f'{len(self.viol)} violating case(s); {len(replay_paths)} replay file(s) written')
             return 1
         return 0
+
+
+def technique_of(mod):
+    t = mod.TECHNIQUE
+    if getattr(mod, 'SCHED_SETS', None):
+        from mc.checks import c10_sched
+        t += c10_sched.SCHED_NOTE + ', '.join(f'{bs} ({g} granularity)' for bs, g in mod.SCHED_SETS)
+    return t
 
 
 _POOL = None
@@ -398,6 +409,11 @@ def load_check(pid):
     mod = importlib.import_module(f'mc.checks.{pid.lower()}')
     _FUNCS.update(mod.PARTS)
     _BUDGETS.update(getattr(mod, 'BUDGETS', {}))
+    if getattr(mod, 'SCHED_SETS', None):
+        # this property's code under thread interleavings (engine E4 lives with C10; the body sets named here exercise this property)
+        from mc.checks import c10_sched
+        _FUNCS.update({'level': c10_sched.level, 'one': c10_sched.one})
+        _BUDGETS.setdefault('level', 900)
     return mod
 
 
@@ -422,6 +438,9 @@ def run_check(pid, tier, seed):
                 close_pool()
         if hasattr(mod, 'explore'):
             mod.explore(ctx)
+        if getattr(mod, 'SCHED_SETS', None) and not ctx.viol:
+            from mc.checks import c10_sched
+            c10_sched.explore_sets(ctx, mod.SCHED_SETS)
         if hasattr(mod, 'summarize'):
             mod.summarize(ctx)
     except HarnessError as e:
